@@ -128,8 +128,10 @@ struct Ledger
         unsigned char* gap_hi = end + GAP;
         if (static_cast<std::size_t>(gap_hi - arena) > ARENA)
         {
-            fprintf(stderr, "VERIF-INFRA: arena exhausted\n");
-            _exit(3);
+            // the library asked for more than the whole arena within one short history: reported as a crash of
+            // kind ALLOC_HUGE (a footprint violation), not as a failure of the machinery
+            fprintf(stderr, "VERIF-HUGE: request of %zu bytes exhausts the %zu byte arena\n", bytes, ARENA);
+            abort();
         }
         bump = static_cast<std::size_t>(gap_hi - arena);
         VERIF_UNPOISON(gap_lo, static_cast<std::size_t>(gap_hi - gap_lo));
@@ -300,7 +302,7 @@ struct LedgerAlloc
     LedgerAlloc select_on_container_copy_construction() const
     {
         if constexpr (Kind::soccfresh)
-            return LedgerAlloc(inst + 10);
+            return LedgerAlloc(inst < 10 ? inst + 10 : inst);
         else
             return *this;
     }
